@@ -12,7 +12,9 @@
      what has been written so far (sequential output), a null or foreign pointer is a fault;
    - an uninitialised local may not be read;
    - operands are evaluated left to right (the translator refuses expressions whose value would
-     depend on the order). *)
+     depend on the order);
+   - unsigned int is 32 bits and wraps; unsigned -> int conversion wraps (implementation-defined in
+     C, this is what gcc and clang do); a break outside a loop is an outcome nobody handles. *)
 From Coq Require Export ZArith List String Bool Lia.
 Export ListNotations.
 Local Open Scope Z_scope.
@@ -20,7 +22,7 @@ Local Open Scope Z_scope.
 Inductive region := RIn | ROut.
 Inductive val := VInt (z : Z) | VPtr (r : region) (off : Z) | VNull | VUndef.
 
-Inductive cty := TInt | TUChar | TChar.
+Inductive cty := TInt | TUChar | TChar | TUInt.
 Inductive binop := Add | Sub | Mul | Shl | Shr | BAnd | BOr | BXor | Lt | Le | Gt | Ge | Eq | Ne.
 
 Inductive expr :=
@@ -36,7 +38,10 @@ Inductive expr :=
 | EStore (p : expr) (e : expr)
 | EPostInc (x : string)
 | EPreInc (x : string)
-| ECond (c a b : expr).
+| ECond (c a b : expr)
+| EBinU (op : binop) (a b : expr)      (* the operation carried out in unsigned int (32 bits, wraps) *)
+| EReadByte (x : string)               (* fread(&x, 1, 1, f) with x an unsigned char local: 1 and x set, or 0 at end of stream *)
+| EWriteByte (e : expr).               (* fwrite(&x, 1, 1, f): 1 and the byte appended, or 0 when the stream refuses it *)
 
 Inductive stmt :=
 | SSkip
@@ -45,7 +50,8 @@ Inductive stmt :=
 | SSeq (a b : stmt)
 | SIf (c : expr) (a b : stmt)
 | SWhile (c : expr) (body : stmt)
-| SReturn (e : expr).
+| SReturn (e : expr)
+| SBreak.
 
 Record state := { vars : list (string * val); inb : list Z; outb : list Z }.
 
@@ -92,6 +98,27 @@ Definition binop_int (op : binop) (a b : Z) : option val :=
   | Ne => Some (VInt (b2z (negb (a =? b))))
   end.
 
+Definition u32 : Z := 4294967296.
+
+(* unsigned int arithmetic: operands in [0, 2^32), results reduced mod 2^32; a shift count must be in [0, 32) *)
+Definition binop_uint (op : binop) (a b : Z) : option val :=
+  match op with
+  | Add => Some (VInt ((a + b) mod u32))
+  | Sub => Some (VInt ((a - b) mod u32))
+  | Mul => Some (VInt ((a * b) mod u32))
+  | Shl => if (0 <=? b) && (b <? 32) then Some (VInt (Z.shiftl a b mod u32)) else None
+  | Shr => if (0 <=? b) && (b <? 32) then Some (VInt (Z.shiftr a b)) else None
+  | BAnd => Some (VInt (Z.land a b))
+  | BOr => Some (VInt (Z.lor a b))
+  | BXor => Some (VInt (Z.lxor a b))
+  | Lt => Some (VInt (b2z (a <? b)))
+  | Le => Some (VInt (b2z (a <=? b)))
+  | Gt => Some (VInt (b2z (a >? b)))
+  | Ge => Some (VInt (b2z (a >=? b)))
+  | Eq => Some (VInt (b2z (a =? b)))
+  | Ne => Some (VInt (b2z (negb (a =? b))))
+  end.
+
 Definition truth (v : val) : option bool :=
   match v with
   | VInt z => Some (negb (z =? 0))
@@ -104,9 +131,10 @@ Definition cast (t : cty) (v : val) : option val :=
   match v with
   | VInt z =>
     match t with
-    | TInt => chk z
+    | TInt => Some (VInt ((z + 2147483648) mod u32 - 2147483648))   (* identity on int values; unsigned -> int wraps (gcc, clang) *)
     | TUChar => Some (VInt (z mod 256))
     | TChar => Some (VInt ((z + 128) mod 256 - 128))
+    | TUInt => Some (VInt (z mod u32))
     end
   | _ => None
   end.
@@ -136,6 +164,13 @@ Definition incr (v : val) (s : state) : option val :=
   | VPtr ROut o => Some (VPtr ROut (o + 1))
   | _ => None
   end.
+
+Definition is_shift (op : binop) : bool := match op with Shl | Shr => true | _ => false end.
+
+(* stream functions: fread takes the next byte of inb (a function uses inb either as memory or as a
+   stream, never both: the translator refuses the mixture); fwrite appends to outb while the budget
+   kept in the pseudo-variable "$budget" lasts *)
+Definition budget_var : string := "$budget".
 
 Fixpoint eval (e : expr) (s : state) : option (val * state) :=
   match e with
@@ -222,9 +257,40 @@ Fixpoint eval (e : expr) (s : state) : option (val * state) :=
     | Some (vc, s1) => match truth vc with Some true => eval a s1 | Some false => eval b s1 | None => None end
     | None => None
     end
+  | EBinU op a b =>
+    match eval a s with
+    | Some (VInt x, s1) =>
+      match eval b s1 with
+      | Some (VInt y, s2) =>
+        if (0 <=? x) && (x <? u32) && ((0 <=? y) && (y <? u32) || is_shift op) then
+          match binop_uint op x y with Some v => Some (v, s2) | None => None end
+        else None
+      | _ => None
+      end
+    | _ => None
+    end
+  | EReadByte x =>
+    match inb s with
+    | b :: r => match set_var x (VInt b) {| vars := vars s; inb := r; outb := outb s |} with
+                | Some s1 => Some (VInt 1, s1) | None => None end
+    | [] => Some (VInt 0, s)
+    end
+  | EWriteByte a =>
+    match eval a s with
+    | Some (VInt z, s1) =>
+      match lookup budget_var (vars s1) with
+      | Some (VInt k) =>
+        if 0 <? k then
+          match set_var budget_var (VInt (k - 1)) {| vars := vars s1; inb := inb s1; outb := outb s1 ++ [z mod 256] |} with
+          | Some s2 => Some (VInt 1, s2) | None => None end
+        else Some (VInt 0, s1)
+      | _ => None
+      end
+    | _ => None
+    end
   end.
 
-Inductive outcome := ONormal (s : state) | OReturn (v : val) (s : state) | OFault | OFuel.
+Inductive outcome := ONormal (s : state) | OReturn (v : val) (s : state) | OBreak (s : state) | OFault | OFuel.
 
 Fixpoint exec (fuel : nat) (st : stmt) (s : state) : outcome :=
   match fuel with
@@ -249,13 +315,17 @@ Fixpoint exec (fuel : nat) (st : stmt) (s : state) : outcome :=
       match eval c s with
       | Some (vc, s1) =>
         match truth vc with
-        | Some true => match exec f body s1 with ONormal s2 => exec f (SWhile c body) s2 | o => o end
+        | Some true => match exec f body s1 with
+                       | ONormal s2 => exec f (SWhile c body) s2
+                       | OBreak s2 => ONormal s2
+                       | o => o end
         | Some false => ONormal s1
         | None => OFault
         end
       | None => OFault
       end
     | SReturn e => match eval e s with Some (v, s1) => OReturn v s1 | None => OFault end
+    | SBreak => OBreak s
     end
   end.
 
@@ -267,3 +337,8 @@ Record func := { fparams : list string; flocals : list string; fbody : stmt }.
    nothing written yet *)
 Definition call (fuel : nat) (f : func) (args : list val) (input : list Z) : outcome :=
   exec fuel (fbody f) {| vars := combine (fparams f) args ++ map (fun x => (x, VUndef)) (flocals f); inb := input; outb := [] |}.
+
+(* a call of a function that works on a stream: input = the unread bytes, budget = how many bytes the output stream accepts *)
+Definition call_io (fuel : nat) (f : func) (args : list val) (input : list Z) (budget : Z) : outcome :=
+  exec fuel (fbody f) {| vars := combine (fparams f) args ++ map (fun x => (x, VUndef)) (flocals f) ++ [(budget_var, VInt budget)];
+                         inb := input; outb := [] |}.
